@@ -39,6 +39,14 @@ struct Outer { a: u8, f: [Fake; 2] }
 #[repr(C)]
 #[zero_copy]
 enum FakeE { A, T(u8, L), N { p: L } }
+#[derive(Epserde, Clone, Copy, Debug)]
+#[repr(C)]
+#[zero_copy]
+enum FakeT { A, T(u8, L), U(u16) }
+#[derive(Epserde, Clone, Copy, Debug)]
+#[repr(C)]
+#[zero_copy]
+enum FakeN { A, N { x: u8, p: L }, M { y: u16 } }
 #[derive(Epserde, Clone, Debug)]
 struct Deep<T> { n: u8, t: T }
 
@@ -76,4 +84,8 @@ fn main() {
     attempt("enum-struct-variant", &FakeE::N { p: l }, 0);
     attempt("enum-unit-variant", &FakeE::A, 0);
     attempt("vec-of-enum", &vec![FakeE::T(1, l)], 0);
+    attempt("enum-only-tuple-variant-lies", &FakeT::T(1, l), 0);
+    attempt("enum-only-tuple-variant-lies-other-variant", &FakeT::U(7), 0);
+    attempt("enum-only-struct-variant-lies", &FakeN::N { x: 1, p: l }, 0);
+    attempt("vec-of-enum-only-tuple-variant-lies", &vec![FakeT::A], 0);
 }
